@@ -251,6 +251,13 @@ pub fn subproduct_extremes(factors: &[&Rat]) -> (Rat, Rat) {
 /// 3.2); None when the f64 error model does not apply (see
 /// [`Within::OutOfModel`]).  A zero product allows no error.
 pub fn product_budget(factors: &[&Rat]) -> Option<Rat> {
+    product_budget_reps(factors, &[])
+}
+
+/// Like [`product_budget`]; `reps` are inputs of the computation that are
+/// themselves rounded representations (unit scales such as 5/18): each may
+/// carry the representation error of the amount type.
+pub fn product_budget_reps(factors: &[&Rat], reps: &[&Rat]) -> Option<Rat> {
     let mut exact = Rat::one();
     for f in factors {
         exact = exact.mul(f);
@@ -261,6 +268,7 @@ pub fn product_budget(factors: &[&Rat]) -> Option<Rat> {
     let (lo, hi) = subproduct_extremes(factors);
     #[cfg(not(feature = "dec"))]
     {
+        let _ = reps;
         if lo.log2_floor() < -960 || hi.log2_floor() > 960 {
             return None;
         }
@@ -269,6 +277,13 @@ pub fn product_budget(factors: &[&Rat]) -> Option<Rat> {
     #[cfg(feature = "dec")]
     {
         let _ = hi;
+        let mut lo = lo;
+        for r in reps {
+            let a = r.abs();
+            if !a.is_zero() && a.cmp(&lo).is_lt() {
+                lo = a;
+            }
+        }
         // 8 delta (1 + |R| / lo)
         Some(Budget::abs_dec().mul(&Rat::one().add(&exact.abs().div(&lo))))
     }
